@@ -103,6 +103,14 @@ func (e editor) leaf(from *Selection, to *Selection, m meta.Leafable, new bool, 
 				return err
 			}
 		}
+		if new && isKeyLeafOf(to, m) {
+			// the key leaves of a new list item are written whatever the request selects with
+			// fields, depth or content: an item without them cannot be read back. The value
+			// still has to be one of the leaf's type
+			keyed := *to
+			keyed.Constraints = to.Constraints.only(fieldConstraints{})
+			to = &keyed
+		}
 		r.Selection = to
 		r.From = from
 		if err := to.set(&r, &hnd); err != nil {
@@ -110,6 +118,20 @@ func (e editor) leaf(from *Selection, to *Selection, m meta.Leafable, new bool, 
 		}
 	}
 	return nil
+}
+
+func isKeyLeafOf(item *Selection, m meta.Leafable) bool {
+	if !item.InsideList {
+		return false
+	}
+	if list, isList := item.Meta().(*meta.List); isList {
+		for _, k := range list.KeyMeta() {
+			if k == m {
+				return true
+			}
+		}
+	}
+	return false
 }
 
 // checkKeyLeaf refuses to give an existing list item a key other than the one it was selected
